@@ -191,8 +191,10 @@ HandleAll(nd, j, m) ==
    keyper overwrites current_decryption_trigger before it emits the trigger (triggerDecryption). *)
 TriggerNode(nd, i, r) ==
     LET nd0 == IF Flavour = "gnosis" THEN [nd EXCEPT !.cur = r] ELSE nd IN
-    IF \A id \in IdsOf(r) : i \in nd0.shares[id] THEN [nd |-> nd0, out |-> <<>>]               \* ErrSharesAlreadySent
-    ELSE InterceptShares([nd0 EXCEPT !.shares = [id \in IdSet |-> IF id \in IdsOf(r) THEN @[id] \cup {i} ELSE @[id]]],
+    IF \A id \in IdsOf(r) : i \in nd0.shares[id]
+    THEN [nd |-> nd0, out |-> <<>>, err |-> "sharesexist"]   \* ErrSharesAlreadySent; the event's result carries the error
+                                                              \* (errors.Is(err, ErrIgnoreDecryptionRequest) does not match the wrapped error)
+    ELSE [err |-> ""] @@ InterceptShares([nd0 EXCEPT !.shares = [id \in IdSet |-> IF id \in IdsOf(r) THEN @[id] \cup {i} ELSE @[id]]],
                          i, SharesMsg(i, r))
 
 ----------------------------------------------------------------------------
